@@ -203,3 +203,33 @@ package bfe_http2
 //@   nopanic
 //@   modifies nothing
 //@   ensures result0 == h
+
+//@ func parseHeadersFrame
+//@   props C32
+//@   arith bv
+//@   nopanic
+//@   modifies nothing
+//@   let padded := (fh.Flags & 8) == 8
+//@   let prio := (fh.Flags & 32) == 32
+//@   let hdr := (padded ? 1 : 0) + (prio ? 5 : 0)
+//@   let pad := (padded && len(p) >= 1 ? int(p[0]) : 0)
+//@   ensures[stream_must_not_be_0] fh.StreamID == 0 ==> err != nil
+//@   ensures[truncated_prefix_fields_rejected] len(p) < hdr ==> err != nil
+//@   ensures[fragment_must_be_nonempty_after_padding] len(p) >= hdr && len(p) - hdr - pad <= 0 ==> err != nil
+//@   ensures[accepted_otherwise] fh.StreamID != 0 && len(p) >= hdr && len(p) - hdr - pad > 0 ==> err == nil && typeis(result0, "*HeadersFrame")
+//@   ensures[fragment_is_the_payload_between_prefix_fields_and_padding] err == nil ==> base(unbox(result0, "*HeadersFrame").headerFragBuf) == base(p) && off(unbox(result0, "*HeadersFrame").headerFragBuf) == off(p) + hdr && len(unbox(result0, "*HeadersFrame").headerFragBuf) == len(p) - hdr - pad
+//@   ensures[priority_fields] err == nil && prio ==> unbox(result0, "*HeadersFrame").Priority.StreamDep == (be32(p[(padded ? 1 : 0):]) & 2147483647) && unbox(result0, "*HeadersFrame").Priority.Weight == p[(padded ? 1 : 0) + 4]
+
+//@ func parsePushPromise
+//@   props C32
+//@   arith bv
+//@   nopanic
+//@   modifies nothing
+//@   let padded := (fh.Flags & 8) == 8
+//@   let hdr := (padded ? 1 : 0) + 4
+//@   let pad := (padded && len(p) >= 1 ? int(p[0]) : 0)
+//@   ensures[stream_must_not_be_0] fh.StreamID == 0 ==> err != nil
+//@   ensures[truncated_prefix_fields_rejected] len(p) < hdr ==> err != nil
+//@   ensures[padding_must_fit] len(p) >= hdr && pad > len(p) - hdr ==> err != nil
+//@   ensures[accepted_otherwise] fh.StreamID != 0 && len(p) >= hdr && pad <= len(p) - hdr ==> err == nil && typeis(result0, "*PushPromiseFrame")
+//@   ensures[fields] err == nil ==> unbox(result0, "*PushPromiseFrame").PromiseID == (be32(p[(padded ? 1 : 0):]) & 2147483647) && len(unbox(result0, "*PushPromiseFrame").headerFragBuf) == len(p) - hdr - pad
